@@ -196,33 +196,97 @@ void SampledDimension::samplingInterval(double interval) {
 }
 
 
-boost::optional<ndsize_t> getSampledIndex(const double position, const double offset, const double sampling_interval, const PositionMatch match) {
-    boost::optional<ndsize_t> index;
-    if (position < offset && (match != PositionMatch::Greater && match != PositionMatch::GreaterOrEqual)) {
-        return index;
+// Indices up to 2^53 convert to double exactly; no axis is longer than that.
+static const ndsize_t MAX_SAMPLE_INDEX = 9007199254740992ULL;
+
+
+// Is the coordinate of sample `index` -- computed exactly as SampledDimension::positionAt() does --
+// below `limit` (strictly, or including equality)?
+static bool sampleBelow(const ndsize_t index, const double limit, const double offset, const double sampling_interval, const bool strict) {
+    double pos = index * sampling_interval + offset;
+    return strict ? pos < limit : pos <= limit;
+}
+
+
+// Largest index in [0, 2^53] whose coordinate is below `limit`, none if there is no such index.
+// The quotient only provides a starting point; the answer is decided by comparing coordinates,
+// which requires nothing but that they do not decrease with the index.
+static boost::optional<ndsize_t> lastSampleBelow(const double limit, const double offset, const double sampling_interval, const bool strict) {
+    boost::optional<ndsize_t> result;
+    if (!sampleBelow(0, limit, offset, sampling_interval, strict)) {
+        return result;
     }
-    double tmp;
-    if (match == PositionMatch::Greater || match == PositionMatch::GreaterOrEqual) {
-        tmp = ceil((position - offset) / sampling_interval);
-        if (tmp < 0.0) {
-            tmp = 0.0;
-        }
-        bool equals = fabs(tmp * sampling_interval + offset - position) <= numeric_limits<double>::epsilon();
-        index = (match == PositionMatch::Greater && equals) ? static_cast<ndsize_t>(tmp + 1) : static_cast<ndsize_t>(tmp);
-    } else if (match == PositionMatch::Less || match == PositionMatch::LessOrEqual) {
-        tmp = floor((position - offset) / sampling_interval);
-        bool equals = fabs(tmp * sampling_interval + offset - position) <= numeric_limits<double>::epsilon();
-        if (match == PositionMatch::Less && equals) { 
-            if (tmp >= 1) {
-                index = static_cast<ndsize_t>(tmp - 1);
-            } 
-        } else {
-            index = static_cast<ndsize_t>(tmp);
+    if (sampleBelow(MAX_SAMPLE_INDEX, limit, offset, sampling_interval, strict)) {
+        result = MAX_SAMPLE_INDEX;
+        return result;
+    }
+    double estimate = floor((limit - offset) / sampling_interval);
+    ndsize_t guess = 0;
+    if (estimate >= 9007199254740992.0) {
+        guess = MAX_SAMPLE_INDEX;
+    } else if (estimate >= 1.0) {
+        guess = static_cast<ndsize_t>(estimate);
+    }
+    ndsize_t lo = 0;
+    ndsize_t hi = MAX_SAMPLE_INDEX;
+    ndsize_t step = 1;
+    // bracket the answer: the coordinate of lo is below the limit, that of hi is not
+    if (sampleBelow(guess, limit, offset, sampling_interval, strict)) {
+        lo = guess;
+        hi = MAX_SAMPLE_INDEX - lo > step ? lo + step : MAX_SAMPLE_INDEX;
+        while (sampleBelow(hi, limit, offset, sampling_interval, strict)) {
+            lo = hi;
+            step = step * 2;
+            hi = MAX_SAMPLE_INDEX - lo > step ? lo + step : MAX_SAMPLE_INDEX;
         }
     } else {
-        tmp = round((position - offset) / sampling_interval);
-        if (fabs(tmp * sampling_interval + offset - position) <= numeric_limits<double>::epsilon()) {
-            index = static_cast<ndsize_t>(tmp);
+        hi = guess;
+        lo = hi > step ? hi - step : 0;
+        while (!sampleBelow(lo, limit, offset, sampling_interval, strict)) {
+            hi = lo;
+            step = step * 2;
+            lo = hi > step ? hi - step : 0;
+        }
+    }
+    while (hi - lo > 1) {
+        ndsize_t mid = lo + (hi - lo) / 2;
+        if (sampleBelow(mid, limit, offset, sampling_interval, strict)) {
+            lo = mid;
+        } else {
+            hi = mid;
+        }
+    }
+    result = lo;
+    return result;
+}
+
+
+boost::optional<ndsize_t> getSampledIndex(const double position, const double offset, const double sampling_interval, const PositionMatch match) {
+    boost::optional<ndsize_t> index;
+    if (position != position || offset != offset || !(sampling_interval > 0.0)) {
+        return index;
+    }
+    if (match == PositionMatch::LessOrEqual || match == PositionMatch::Greater || match == PositionMatch::Equal) {
+        boost::optional<ndsize_t> le = lastSampleBelow(position, offset, sampling_interval, false);
+        if (match == PositionMatch::LessOrEqual) {
+            index = le;
+        } else if (match == PositionMatch::Greater) {
+            if (!le) {
+                index = 0;
+            } else if (*le < MAX_SAMPLE_INDEX) {
+                index = *le + 1;
+            }
+        } else if (le && (*le * sampling_interval + offset == position)) {
+            index = le;
+        }
+    } else {
+        boost::optional<ndsize_t> lt = lastSampleBelow(position, offset, sampling_interval, true);
+        if (match == PositionMatch::Less) {
+            index = lt;
+        } else if (!lt) {
+            index = 0;
+        } else if (*lt < MAX_SAMPLE_INDEX) {
+            index = *lt + 1;
         }
     }
     return index;
